@@ -9,6 +9,7 @@
 #include "c04.c"
 #include "c02.c"
 #include "c18.c"
+#include "c15.c"
 
 int main(int argc,char **argv){
   if(argc<2){ fprintf(stderr,"usage: vharn <stream>\n"); return 2; }
@@ -19,6 +20,7 @@ int main(int argc,char **argv){
   if(!strcmp(argv[1],"c04")) return c04_main(argc-1,argv+1);
   if(!strcmp(argv[1],"c02")) return c02_main(argc-1,argv+1);
   if(!strcmp(argv[1],"c18")) return c18_main(argc-1,argv+1);
+  if(!strcmp(argv[1],"c15")) return c15_main(argc-1,argv+1);
   fprintf(stderr,"vharn: unknown stream %s\n",argv[1]);
   return 2;
 }
